@@ -18,7 +18,7 @@ use std::collections::HashSet;
 const STREAM: u64 = 11;
 
 pub fn run(ctx: &Ctx) -> Report {
-    let n = ctx.cases(4_000, 200_000);
+    let n = ctx.cases(20_000, 1_000_000);
     let local = run_cases(ctx, n, |case, l| {
         issuer_history(ctx, case, l);
         holder_history(ctx, case, l);
@@ -345,9 +345,12 @@ fn holder_history(ctx: &Ctx, case: u64, l: &mut Local) {
                         if let Err(e) = check_kb_shape(&parts, &ka.aud, &ka.nonce) {
                             l.violate(viol(case, "kb-shape", &format!("reused-holder {}", cfg.fmt.name()), e, json!({"input": input(), "presentation": pres})));
                         }
+                        // NOTE: an identical KB-JWT string may legitimately recur (EdDSA signatures are
+                        // deterministic; same aud, nonce, selection and second give the same JWT). A stale
+                        // KB-JWT of a call with OTHER arguments is caught by check_kb_shape above.
                         let kbs = parts.kb.clone().unwrap_or_default();
                         if earlier_kbs.contains(&kbs) {
-                            l.violate(viol(case, "earlier-kb-jwt-reappears", &format!("reused-holder {}", cfg.fmt.name()), "a KB-JWT of an earlier call occurs again".into(), json!({"input": input()})));
+                            l.count("holder.kb-jwt-identical-to-an-earlier-one(legitimate)");
                         }
                         earlier_kbs.insert(kbs);
                         // and it verifies
